@@ -67,8 +67,9 @@ METAS = [
 BODIES = [None, "", "hello\n", "# x\r\n=> y\r\n", b"\x00\x01binary\xff", "ünï\n", b"", "B" * 70000, "é€" * 20000]
 STATUSES = [10, 11, 20, 21, 29, 30, 31, 40, 44, 51, 59, 60, 62, 69]
 BAD_STATUSES = [0, 5, 9, 70, 99, 100, 200, -1, 2]
-EXC_MSGS = ["", "boom", "m" * 1500, "multi\nline", "cr\r\nlf", "ünï", "20 ok\r\n"]
-EXC_NAMES = ["ValueError", "OSError", "KeyError", "UnicodeError", "CustomError", "RuntimeError"]
+EXC_MSGS = ["", "boom", "m" * 1500, "multi\nline", "cr\r\nlf", "ünï", "20 ok\r\n", "lone \udcff surrogate", "nul\x00byte", "tab\tand\x7f", "\u2028line-sep"]
+EXC_NAMES = ["ValueError", "OSError", "KeyError", "UnicodeError", "CustomError", "RuntimeError", "TypeError", "AssertionError", "TimeoutError", "StopIteration",
+             "StopAsyncIteration", "RecursionError", "MemoryError", "StrRaises", "ExceptionGroup", "CancelledError"]
 
 
 def gen_handler_spec(rng):
